@@ -332,7 +332,9 @@ class DPSKDemodulator(BaseDemodulator):
                 min_dist_1 = self._min_distance_to_points(z, const_bit_1, effective_noise_var)
 
                 # Calculate LLR: log(P(bit=0)/P(bit=1))
-                llrs[..., bit_idx] = min_dist_1 - min_dist_0
+                # _min_distance_to_points returns max(-d^2 / noise_var) = -min(d^2) / noise_var, so
+                # log P(bit=0)/P(bit=1) ~ (min d1^2 - min d0^2) / noise_var is value_0 - value_1
+                llrs[..., bit_idx] = min_dist_0 - min_dist_1
 
             return llrs.reshape(*batch_shape, -1)
 
